@@ -60,7 +60,7 @@ CHECKS = {
         'has to meet: any two legal encodings of one value - whatever partition of arrays and maps into blocks, with or without '
         'byte sizes - decode to that value and consume exactly their own bytes (C16_block_partition_irrelevant, from the C02 '
         'specification relation), and every layout the generic encoder can be asked for is legal (C16_generic_layouts_legal). '
-        'Checked every run on a corpus of 39 Rust types (derived structs and enums, tuples, fixed arrays, vectors of zero-width items, structs whose field order differs from a hand-written schema - reversed, interleaved, rotated, with schema defaults; enums under serde rename rules) x generated values x block sizes {none, 1, 16, large}: the '
+        'Checked every run on a corpus of 41 Rust types (derived structs and enums, tuples, fixed arrays, vectors of zero-width items, structs whose field order differs from a hand-written schema - reversed, interleaved, rotated, with schema defaults; enums under serde rename rules) x generated values x block sizes {none, 1, 16, large}: the '
         'serializer output is read by the EXTRACTED decoder as exactly one datum, equal to what the generic decoder gives; the '
         'returned count is the number of bytes emitted; the schema-aware deserializer returns an equal Rust value; for types '
         'without data-carrying enums and tuples, to_value + resolve + the generic encoder give an encoding of the same datum; all block '
@@ -75,7 +75,7 @@ CHECKS = {
    text='PARTIAL, and mostly NOT by proof: the derive macro and the serde implementations are not modelled. Decided with the proof '
         'machinery: the JSON of every derived schema is parsed by the extracted model parser on every run, and everything that '
         'parser accepts satisfies the C11 well-formedness theorems (restated for records as C17_accepted_record_well_formed); its '
-        'JSON repeats no key (C17_derived_json_strict). Checked every run on 41 types (field types, serde rename rules on structs and enums incl. rename_all_fields with a variant override, Option / Vec / HashMap '
+        'JSON repeats no key (C17_derived_json_strict). Checked every run on 43 types (field types, serde rename rules on structs and enums incl. rename_all_fields with a variant override, Option / Vec / HashMap '
         'nestings, recursion, generics, rename / rename_all / namespace / alias / doc / skip / default, unit and data-carrying '
         'enums, 1-tuples / pairs / fixed arrays over single-field and recursive records, zero-width items): get_schema does not panic and gives the same schema twice; the schema survives a JSON round trip, its names '
         'resolve, no name is defined twice; every generated value serializes, deserializes to an equal value, also through a '
@@ -200,7 +200,7 @@ CHECKS = {
         '(C02_audit_accepts_spec); the specification\'s own examples are derivable. Check: implementation bytes = '
         'in-spec model bytes; certified layouts (blocks of 1-3, +/- counts) fed to GenericDatumReader and the '
         'schema-aware deserializer must read back the value; the bytes of the generic encoder AND of the serde writer '
-        '(12 corpus types x target block sizes none/1/16/64/large: the path that emits negative counts with byte sizes) '
+        '(17 corpus types x target block sizes none/1/16/64/large: the path that emits negative counts with byte sizes) '
         'pass the extracted strict auditor, are one datum, the same datum for every block size.',
    note='the relation is the independent implementation; a second codebase is not available offline. The serde '
         'block writer (target_block_size) is audited here on corpus types and compared in full under C16. The decoder is laxer '
